@@ -2535,6 +2535,15 @@ def nth_e(lhs, ctx):
         return vectorise(nth_e, lhs, ctx=ctx)
 
 
+def nth_fibonacci(lhs, ctx):
+    """Element ∆f
+    (num) -> nth_fibonacci(a)
+    """
+    if vy_type(lhs) == NUMBER_TYPE:
+        return sympy.fibonacci(lhs + 1)
+    return vectorise(nth_fibonacci, lhs, ctx=ctx)
+
+
 def nth_ordinal(lhs, ctx):
     """Element ∆o
     Nth item of Þo
@@ -4907,7 +4916,7 @@ elements: dict[str, tuple[str, int]] = {
     "∆ė": process_element(nth_e, 1),
     "∆I": process_element("pi_digits(lhs)", 1),
     "∆Ė": process_element(e_digits, 1),
-    "∆f": process_element("sympy.fibonacci(lhs + 1)", 1),
+    "∆f": process_element(nth_fibonacci, 1),
     "∆±": process_element(copy_sign, 2),
     "∆K": process_element(divisor_sum, 1),
     "∆e": process_element(expe, 1),
